@@ -60,7 +60,7 @@ type asyncRun struct {
 }
 
 func (a *asyncRun) viol(clause, key, detail string) {
-	a.c.Violate(corr.Violation{Property: "C16", Clause: clause, Key: key, Where: "internal/asyncprocessor", Input: a.ac, Detail: detail})
+	report(a.c, corr.Violation{Property: "C16", Clause: clause, Key: key, Where: "internal/asyncprocessor", Input: a.ac, Detail: detail})
 }
 
 func (a *asyncRun) astStr() string {
@@ -150,7 +150,14 @@ func (a *asyncRun) execHeld() {
 	}
 	id := a.holdID
 	fails := a.gates[id] != nil && a.failing(id)
-	close(a.gates[id])
+	select {
+	case <-a.gates[id]: // already open: the same callback is being run again
+		a.viol("each accepted item is executed at most once", "async-executed-twice", fmt.Sprintf("callback %d was handed to the consumer twice", id))
+		a.broken = true
+		return
+	default:
+		close(a.gates[id])
+	}
 	select {
 	case <-a.finished:
 	case <-time.After(waitLimit):
@@ -550,7 +557,7 @@ func runConcAsync(c *corr.Ctx, cc *ConcCase, budget time.Duration) {
 	}()
 	allWG.Wait()
 	v := func(clause, key, detail string) {
-		c.Violate(corr.Violation{Property: "C16", Clause: clause, Key: key, Where: "internal/asyncprocessor", Input: cc, Detail: detail})
+		report(c, corr.Violation{Property: "C16", Clause: clause, Key: key, Where: "internal/asyncprocessor", Input: cc, Detail: detail})
 	}
 	if hang {
 		v("Close joins the consumer and returns", "aconc-close-hang", "Processor.Close did not return within 8 s")
